@@ -17,7 +17,7 @@ PKGDIR = {'tds': 'tds', 'dsn': 'dsn', 'asetypes': 'asetypes', 'capability': 'cap
           'tds_test': 'tds', 'dsn_test': 'dsn', 'asetypes_test': 'asetypes', 'capability_test': 'capability', 'namepool_test': 'namepool', 'dblib_test': '.'}
 
 def sh(cmd, cwd='/repo', timeout=1800):
-    p = subprocess.run(cmd, shell=True, cwd=cwd, env=ENV, stdout=subprocess.PIPE, stderr=subprocess.STDOUT, text=True, timeout=timeout)
+    p = subprocess.run(cmd, shell=True, cwd=cwd, env=ENV, stdout=subprocess.PIPE, stderr=subprocess.STDOUT, text=True, errors='replace', timeout=timeout)
     return p.returncode, p.stdout
 
 def main():
